@@ -194,7 +194,8 @@ static void tk_obs(spif_obj_t o, char *b, size_t n)
 /* ------------------------------------------------------------------ url */
 static const char *URB[] = { "new()", "from_ptr(\"http://u:p@h:8/p?q\")", "from_ptr(\"h\")", "from_ptr(\"/path\")", "from_ptr(\"zz://host/x\")", "from_ptr(\"\")", "from_ptr(\"http://h:8/p\")+unparse",
                              "from_ptr(\"h:8\")+set_host(new \"g\")+unparse", "from_ptr(\"h:8/p\")+set_host(new \"g\")", "from_ptr(\"u@h\")", "from_ptr(\"b\")", "from_ptr(\"/pub/f\")+set_port(new \"21\") (a port without a host)", "from_ptr(\"http://h:/p\") (a colon and no port, a scheme the service database knows)",
-                             "from_ptr(\"HTTP://x.org/\")", "from_ptr(\"Zebra/readme\")", "from_ptr(\"ftp://x.org/\")" };      /* the last three: text order and scheme order disagree (capital scheme, a scheme-less text in between) */
+                             "from_ptr(\"HTTP://x.org/\")", "from_ptr(\"Zebra/readme\")", "from_ptr(\"ftp://x.org/\")",
+                             "new()+set_proto(\"http\")+set_host(\"a\")+set_path(\"/x\") (components, no text)", "from_ptr(\"http://a/x\")", "from_ptr(\"http://a.b/x\")" };      /* the last three: text order and scheme order disagree (capital scheme, a scheme-less text in between) */
 static spif_obj_t ur_build(int i)
 {
     spif_url_t u;
@@ -214,6 +215,9 @@ static spif_obj_t ur_build(int i)
     case 13: return SPIF_OBJ(spif_url_new_from_ptr((spif_charptr_t) "HTTP://x.org/"));
     case 14: return SPIF_OBJ(spif_url_new_from_ptr((spif_charptr_t) "Zebra/readme"));
     case 15: return SPIF_OBJ(spif_url_new_from_ptr((spif_charptr_t) "ftp://x.org/"));
+    case 16: u = spif_url_new(); spif_url_set_proto(u, spif_str_new_from_ptr((spif_charptr_t) "http")); spif_url_set_host(u, spif_str_new_from_ptr((spif_charptr_t) "a")); spif_url_set_path(u, spif_str_new_from_ptr((spif_charptr_t) "/x")); return SPIF_OBJ(u);      /* 16..18: text order and component order disagree ('/' sorts after '.') */
+    case 17: return SPIF_OBJ(spif_url_new_from_ptr((spif_charptr_t) "http://a/x"));
+    case 18: return SPIF_OBJ(spif_url_new_from_ptr((spif_charptr_t) "http://a.b/x"));
     default: return SPIF_OBJ(spif_url_new_from_ptr((spif_charptr_t) "b"));
     }
 }
